@@ -7,7 +7,9 @@ CONSTANTS
   UseScan = "all"
   AddRollback = TRUE
   NsEmptyQuals = TRUE
+  AddTypeError = TRUE
   NsArgs = {0, 1, 2, 3}
+  CompileNs = {0, 2}
   NsAdm = {0, 1, 2, 3}
   QU = {1, 2, 3}
   DU = {"d1", "d2", "d3"}
